@@ -22,6 +22,7 @@ type perSessionHandler struct {
 	block    chan struct{}
 	roles    map[string]string
 	units    map[string][]uint8
+	changed  []string // request arguments that changed while the handler call was blocked
 }
 
 func (p *perSessionHandler) get(addr, role string) *scriptedHandler {
@@ -46,6 +47,16 @@ func (p *perSessionHandler) maybeBlock(a uint16) {
 	}
 }
 func (p *perSessionHandler) HandleCoils(r *modbus.CoilsRequest) ([]bool, error) {
+	if r.Addr == 0xbeef && r.IsWrite {
+		before := append([]bool(nil), r.Args...)
+		<-p.block
+		if fmt.Sprint(before) != fmt.Sprint(r.Args) || r.Addr != 0xbeef {
+			p.mu.Lock()
+			p.changed = append(p.changed, fmt.Sprintf("write coils at 0xbeef: args %v became %v (addr now %#x)", before, r.Args, r.Addr))
+			p.mu.Unlock()
+		}
+		return p.get(r.ClientAddr, r.ClientRole).HandleCoils(r)
+	}
 	p.maybeBlock(r.Addr)
 	return p.get(r.ClientAddr, r.ClientRole).HandleCoils(r)
 }
@@ -54,6 +65,16 @@ func (p *perSessionHandler) HandleDiscreteInputs(r *modbus.DiscreteInputsRequest
 	return p.get(r.ClientAddr, r.ClientRole).HandleDiscreteInputs(r)
 }
 func (p *perSessionHandler) HandleHoldingRegisters(r *modbus.HoldingRegistersRequest) ([]uint16, error) {
+	if r.Addr == 0xbeef && r.IsWrite {
+		before := append([]uint16(nil), r.Args...)
+		<-p.block
+		if fmt.Sprint(before) != fmt.Sprint(r.Args) || r.Addr != 0xbeef {
+			p.mu.Lock()
+			p.changed = append(p.changed, fmt.Sprintf("write registers at 0xbeef: args %04x became %04x (addr now %#x)", before, r.Args, r.Addr))
+			p.mu.Unlock()
+		}
+		return p.get(r.ClientAddr, r.ClientRole).HandleHoldingRegisters(r)
+	}
 	p.maybeBlock(r.Addr)
 	return p.get(r.ClientAddr, r.ClientRole).HandleHoldingRegisters(r)
 }
@@ -182,6 +203,12 @@ func init() {
 			}
 			close(h.block)
 			time.Sleep(3 * time.Millisecond)
+			h.mu.Lock()
+			for _, c := range h.changed {
+				res.Add(Finding{Kind: "property", Check: "handler-args-stable", Line: fmt.Sprintf("round %d K=%d: blocked request %s while the other connections exchanged requests", round, K, hx(blocked)), Impl: c,
+					Expect: "the request a handler received stays what its connection sent", Note: "a handler invocation carried data of another connection's request"})
+			}
+			h.mu.Unlock()
 			local := make([]string, K+2)
 			for i, c := range conns {
 				if c != nil {
